@@ -34,32 +34,45 @@ def modelClass : Result → String
   | .allocTooLarge => "FATAL"
   | .hang => "TIMEOUT"
 
-def implClass (res : List String) : Option (String × Option String) :=
+/-- implementation outcome: (class, kind of failure, raw token).  kind ∈ {"", "decode-panic", "query-panic",
+    "decode-fatal", "decode-timeout"} -/
+def implClass (res : List String) : Option (String × String × String) :=
   match res with
-  | ["error"] => some ("error", none)
-  | ["ok", "qok"] => some ("ok", none)
-  | ["ok", q] => if q.startsWith "QPANIC:" then some ("ok", some ("query-panic " ++ q)) else none
+  | ["error"] => some ("error", "", "")
+  | ["ok", "qok"] => some ("ok", "", "")
+  | ["ok", q] => if q.startsWith "QPANIC:" then some ("ok", "query-panic", q) else none
   | [t] =>
-    if t.startsWith "PANIC:" then some ("PANIC", some ("decode-panic " ++ t))
-    else if t.startsWith "FATAL:" then some ("FATAL", some ("decode-fatal " ++ t))
-    else if t == "TIMEOUT" then some ("TIMEOUT", some "decode-timeout")
+    if t.startsWith "PANIC:" then some ("PANIC", "decode-panic", t)
+    else if t.startsWith "FATAL:" then some ("FATAL", "decode-fatal", t)
+    else if t == "TIMEOUT" then some ("TIMEOUT", "decode-timeout", "")
     else none
   | _ => none
 
+/-- Clauses printed after `propfail`:
+    `panic-nonfinite-vertex <token>`  a decode-panic or query-panic on an input in which the decoder read a NaN / ±Inf
+                                      vertex coordinate (known finding D21: non-finite vertices are accepted);
+    `decode-panic <token>`, `query-panic <token>`, `decode-fatal <token>`, `decode-timeout`   every other abnormal outcome;
+    `error-swallowed decoder-error-set-but-nil-returned`   nil returned although the decoder's error was set. -/
 def handle (op : String) (args res : List String) : Option String :=
   match op, args with
   | "dec", [ty, hex] => do
     let bytes ← parseBytes? hex
     let prog ← (S2.Generated.DecoderIR.decoders.find? (·.1 == ty)).map (·.2)
-    let (ic, pf) ← implClass res
-    let r := run cfg prog bytes
-    let mc := modelClass r
+    let (ic, kind, tok) ← implClass res
+    let o := exec cfg prog (St.init bytes)
+    let r := resultOf o
+    let nf := nonfiniteOf o
     let lost := match r with | .value _ true => true | _ => false
     let prop : Option String :=
-      match pf with
-      | some c => some c
-      | none => if lost && ic == "ok" then some "error-swallowed decoder-error-set-but-nil-returned" else none
-    pure (verdictP [mc] [ic] prop)
+      if kind == "decode-panic" || kind == "query-panic" then
+        if nf then some ("panic-nonfinite-vertex " ++ tok) else some (kind ++ " " ++ tok)
+      else if kind == "decode-fatal" then some (kind ++ " " ++ tok)
+      else if kind == "decode-timeout" then some kind
+      else if lost && ic == "ok" then some "error-swallowed decoder-error-set-but-nil-returned"
+      else none
+    -- a D21 input on which the real code panics inside Decode is a `value` in the model (the panic is in opaque
+    -- post-processing): report the class the model computed, the clause carries the finding
+    pure (verdictP [modelClass r] [ic] prop)
   | _, _ => none
 
 end Oracle.C15
